@@ -69,7 +69,7 @@ pub fn id_in_domain(v: &Value) -> bool {
 	}
 }
 
-pub const REGISTERED: &[&str] = &["echo", "add", "len", "fail", "blob", "failblob", "aecho", "becho", "bpanic", "sub", "unsub"];
+pub const REGISTERED: &[&str] = &["seqadd", "echo", "add", "len", "fail", "blob", "failblob", "aecho", "becho", "bpanic", "sub", "unsub"];
 
 /// What a (deterministic) handler answers.
 pub fn handler_model(method: &str, params: Option<&Value>, params_raw: Option<&str>) -> Want {
@@ -77,6 +77,13 @@ pub fn handler_model(method: &str, params: Option<&Value>, params_raw: Option<&s
 		"echo" | "aecho" | "becho" => Want::Result(params.cloned().unwrap_or(Value::Null)),
 		"add" => match params.and_then(|p| p.as_array()) {
 			Some(a) if a.len() == 2 => match (a[0].as_u64(), a[1].as_u64()) {
+				(Some(x), Some(y)) if x <= u32::MAX as u64 && y <= u32::MAX as u64 => Want::Result(Value::from(x + y)),
+				_ => Want::Err(vec![-32602]),
+			},
+			_ => Want::Err(vec![-32602]),
+		},
+		"seqadd" => match params.and_then(|p| p.as_array()) {
+			Some(a) if a.len() >= 2 => match (a[0].as_u64(), a[1].as_u64()) {
 				(Some(x), Some(y)) if x <= u32::MAX as u64 && y <= u32::MAX as u64 => Want::Result(Value::from(x + y)),
 				_ => Want::Err(vec![-32602]),
 			},
@@ -105,6 +112,16 @@ pub fn classify(msg: &[u8]) -> Classified {
 	let unclassified = Classified { expect: Expect::Unclassified, invokes: None, is_call: false, quirk: None };
 	let parse_err = Classified { expect: Expect::Reply { ids: vec![Value::Null], want: Want::Err(vec![-32700]) }, invokes: None, is_call: false, quirk: None };
 	let body = strip_ws(msg);
+	// Rust's `is_ascii_whitespace` also covers form feed, JSON's whitespace does not: a message whose leading
+	// "whitespace" contains 0x0c is, strictly, not JSON; the property's quantifier leaves it open. It is kept out of
+	// the matching and only checked for agreement between the transports.
+	if let Some(first) = msg.iter().position(|b| !matches!(b, b' ' | b'\t' | b'\n' | b'\r' | 0x0c)) {
+		if msg[..first].contains(&0x0c) {
+			let mut inner = classify(&msg[first..]);
+			inner.quirk = Some("formfeed-in-leading-whitespace");
+			return inner;
+		}
+	}
 	let Ok(text) = std::str::from_utf8(body) else {
 		// not UTF-8, hence not JSON. Note the sub-class "JSON-shaped once decoded lossily" (bad bytes inside a string)
 		let lossy = String::from_utf8_lossy(body);
